@@ -4,6 +4,7 @@ import (
 	"context"
 	"encoding/json"
 	"fmt"
+	"strings"
 
 	"github.com/Comcast/sheens/core"
 	"github.com/Comcast/sheens/match"
@@ -22,6 +23,10 @@ type c13Case struct {
 	Syntax string // none | json | explicit-none (patternSyntax: "none" written out)
 	Comp   string // once | twice-force | twice-noforce | reload | reload-yaml
 	Bad    string // "" | unknown-interpreter | unknown-guard-interpreter | unknown-branchtype | unknown-patternsyntax
+	// BadName: the name written where Bad says ("" = cobol / weird / xml).  A name that differs from a known
+	// one only in case or surrounding blanks is either rejected or honoured like the known one - never
+	// accepted and then treated as something else.
+	BadName string `json:"bad_name,omitempty"`
 }
 
 var c13Patterns = []interface{}{
@@ -91,14 +96,14 @@ func c13Load(cs c13Case) (*core.Spec, error) {
 		}
 		switch cs.Bad {
 		case "unknown-interpreter":
-			spec.Nodes["n2"].ActionSource = &core.ActionSource{Interpreter: "cobol", Source: "x"}
+			spec.Nodes["n2"].ActionSource = &core.ActionSource{Interpreter: cs.badName("cobol"), Source: "x"}
 			spec.Nodes["n2"].Branches.Type = "bindings"
 		case "unknown-guard-interpreter":
-			spec.Nodes["errh"].Branches.Branches[0].GuardSource = &core.ActionSource{Interpreter: "cobol", Source: "x"}
+			spec.Nodes["errh"].Branches.Branches[0].GuardSource = &core.ActionSource{Interpreter: cs.badName("cobol"), Source: "x"}
 		case "unknown-branchtype":
-			spec.Nodes["errh"].Branches.Type = "weird"
+			spec.Nodes[cs.branchTypeNode()].Branches.Type = cs.badName("weird")
 		case "unknown-patternsyntax":
-			spec.PatternSyntax = "xml"
+			spec.PatternSyntax = cs.badName("xml")
 		}
 		return spec, nil
 	}
@@ -121,17 +126,17 @@ func c13Load(cs c13Case) (*core.Spec, error) {
 	switch cs.Bad {
 	case "unknown-interpreter":
 		n2 := nodes["n2"].(map[string]interface{})
-		n2["action"] = M{"interpreter": "cobol", "source": "x"}
+		n2["action"] = M{"interpreter": cs.badName("cobol"), "source": "x"}
 		n2["branching"].(map[string]interface{})["type"] = "bindings"
 	case "unknown-guard-interpreter":
-		nodes["errh"].(map[string]interface{})["branching"].(map[string]interface{})["branches"].([]interface{})[0].(map[string]interface{})["guard"] = M{"interpreter": "cobol", "source": "x"}
+		nodes["errh"].(map[string]interface{})["branching"].(map[string]interface{})["branches"].([]interface{})[0].(map[string]interface{})["guard"] = M{"interpreter": cs.badName("cobol"), "source": "x"}
 	case "unknown-branchtype":
-		nodes["errh"].(map[string]interface{})["branching"].(map[string]interface{})["type"] = "weird"
+		nodes[cs.branchTypeNode()].(map[string]interface{})["branching"].(map[string]interface{})["type"] = cs.badName("weird")
 	case "unknown-patternsyntax":
 		if format == "json" {
-			doc["patternSyntax"] = "xml"
+			doc["patternSyntax"] = cs.badName("xml")
 		} else {
-			doc["patternsyntax"] = "xml"
+			doc["patternsyntax"] = cs.badName("xml")
 		}
 	}
 	spec = &core.Spec{}
@@ -146,6 +151,48 @@ func c13Load(cs c13Case) (*core.Spec, error) {
 		err = yaml2.Unmarshal([]byte(rstep.YAML(doc)), spec)
 	}
 	return spec, err
+}
+
+func (cs c13Case) badName(def string) string {
+	if cs.BadName != "" {
+		return cs.BadName
+	}
+	return def
+}
+
+// canonicalOf: the known name that BadName is a case/blank variant of ("" if none).
+func (cs c13Case) canonicalOf() string {
+	if cs.BadName == "" {
+		return ""
+	}
+	l := strings.ToLower(strings.TrimSpace(cs.BadName))
+	if l == cs.BadName {
+		return ""
+	}
+	var known []string
+	switch cs.Bad {
+	case "unknown-interpreter", "unknown-guard-interpreter":
+		known = []string{"ecmascript", "ecmascript-ext"}
+	case "unknown-branchtype":
+		known = []string{"message", "bindings"}
+	case "unknown-patternsyntax":
+		known = []string{"json", "none"}
+	}
+	for _, k := range known {
+		if k == l {
+			return k
+		}
+	}
+	return ""
+}
+
+// branchTypeNode: a near-miss of a known type is written on the start node (where the type matters on every
+// message), a plainly unknown one on the error handler.
+func (cs c13Case) branchTypeNode() string {
+	if cs.BadName != "" {
+		return "n0"
+	}
+	return "errh"
 }
 
 // c13Compile applies the compile variant; returns the spec to use.
@@ -260,7 +307,21 @@ func C13(c *vh.Ctx) {
 		sig := fmt.Sprintf("rep=%s/syntax=%s/compile=%s/patterns=%s+%s", cs.Rep, cs.Syntax, cs.Comp, patShape(cs.P1), patShape(cs.P2))
 		if cs.Bad != "" {
 			if verr == nil {
-				c.Violation("C13/accepted-at-compile-time/"+cs.Bad+"/rep="+cs.Rep, "a spec using an "+cs.Bad+" compiled without error", cs)
+				if canon := cs.canonicalOf(); canon != "" {
+					// accepted: then it has to be honoured exactly like the known name it resembles
+					twin := cs
+					twin.BadName = canon
+					tt, _, terr := c13Behaviour(twin, maxLen)
+					if terr == nil && tt == vt {
+						c.Count("near_miss_names_accepted_and_honoured", 1)
+						return
+					}
+					c.Violation("C13/accepted-at-compile-time-but-not-honoured/"+cs.Bad+"/rep="+cs.Rep, fmt.Sprintf("a spec using %q where %q is the known name compiled without error, but does not behave like the spec that says %q: %s", cs.BadName, canon, canon, firstDiff(tt, vt)), cs)
+					return
+				}
+				c.Violation("C13/accepted-at-compile-time/"+cs.Bad+"/rep="+cs.Rep, fmt.Sprintf("a spec using an %s (%q) compiled without error", cs.Bad, cs.badName("cobol / weird / xml")), cs)
+			} else {
+				c.Count("unknown_names_rejected", 1)
 			}
 			return
 		}
@@ -289,7 +350,7 @@ func C13(c *vh.Ctx) {
 		return
 	}
 	c.Bound("message_sequence_max", maxLen)
-	c.Rule("specs = (first pattern, second pattern) over 12 JSON shapes (map with variable, map constant, array, number, bool, bare string, bare variable, nested, numeric-looking string, keyword-looking string, array in array in map, maps inside nested arrays) x flavour {plain, guarded, throwing action + ActionErrorNode, + ActionErrorBranches}; each rendered as Go structures / JSON / YAML via jsccast / YAML via yaml.v2 x pattern syntax {inline, json text, inline with patternSyntax none written out} x compile variant {once, twice forced, twice unforced, compile-serialise(JSON)-reload-compile, compile-serialise(YAML, yaml.v2)-reload-compile}; behaviour = full tree of walks over all message sequences up to the bound over 13 messages, compared with the Go-structure/inline/once rendering; plus 4 unknown-interpreter/branch-type/pattern-syntax variants per representation that must fail to compile. non-trivial = every case (each is a distinct rendering).")
+	c.Rule("specs = (first pattern, second pattern) over 12 JSON shapes (map with variable, map constant, array, number, bool, bare string, bare variable, nested, numeric-looking string, keyword-looking string, array in array in map, maps inside nested arrays) x flavour {plain, guarded, throwing action + ActionErrorNode, + ActionErrorBranches}; each rendered as Go structures / JSON / YAML via jsccast / YAML via yaml.v2 x pattern syntax {inline, json text, inline with patternSyntax none written out} x compile variant {once, twice forced, twice unforced, compile-serialise(JSON)-reload-compile, compile-serialise(YAML, yaml.v2)-reload-compile}; behaviour = full tree of walks over all message sequences up to the bound over 13 messages, compared with the Go-structure/inline/once rendering; plus unknown-interpreter / guard-interpreter / branch-type / pattern-syntax variants per representation - plainly unknown names (cobol, weird, xml, msg, yaml, goja ...) must fail to compile; near misses of the known names (other letter case, surrounding blanks) must either fail to compile or behave exactly like the known name. non-trivial = every case (each is a distinct rendering).")
 	reps := []string{"go", "json", "yaml-jsccast", "yaml-v2"}
 	var idx uint64
 	for p1 := range c13Patterns {
@@ -321,6 +382,20 @@ func C13(c *vh.Ctx) {
 					if p1 == 0 && p2 == 1 {
 						for _, bad := range []string{"unknown-interpreter", "unknown-guard-interpreter", "unknown-branchtype", "unknown-patternsyntax"} {
 							one(c13Case{P1: p1, P2: p2, Flavor: fl, Rep: rep, Syntax: "none", Comp: "once", Bad: bad})
+						}
+						// near misses of the known names
+						for _, nm := range []string{"ECMAScript", "Ecmascript", "ecmascript ", " ecmascript", "goja", "js", "ecmascript-EXT"} {
+							one(c13Case{P1: p1, P2: p2, Flavor: fl, Rep: rep, Syntax: "none", Comp: "once", Bad: "unknown-interpreter", BadName: nm})
+							one(c13Case{P1: p1, P2: p2, Flavor: fl, Rep: rep, Syntax: "none", Comp: "once", Bad: "unknown-guard-interpreter", BadName: nm})
+						}
+						for _, nm := range []string{"Message", "MESSAGE", "message ", " message", "Bindings", "BINDINGS", "msg", "messages", "default"} {
+							one(c13Case{P1: p1, P2: p2, Flavor: fl, Rep: rep, Syntax: "none", Comp: "once", Bad: "unknown-branchtype", BadName: nm})
+						}
+						for _, nm := range []string{"JSON", "Json", "json ", " json"} {
+							one(c13Case{P1: p1, P2: p2, Flavor: fl, Rep: rep, Syntax: "json", Comp: "once", Bad: "unknown-patternsyntax", BadName: nm})
+						}
+						for _, nm := range []string{"None", "NONE", "yaml", "inline"} {
+							one(c13Case{P1: p1, P2: p2, Flavor: fl, Rep: rep, Syntax: "none", Comp: "once", Bad: "unknown-patternsyntax", BadName: nm})
 						}
 					}
 				}
